@@ -26,7 +26,7 @@ COMPONENTS = E1_COMPONENTS
 ASSUMPTIONS = E1_ASSUMPTIONS + [
     "pattern forms: NAME, NAME/, single-component globs, **/NAME[/], absolute paths with optional final-component "
     "glob; relative patterns with an inner slash are not generated (their anchor is not fixed by the statement)"]
-PROBES = ["ancestor_with_glob_characters", "stdout_mode", "unlistable_excluded_dir", "dir_and_file_share_a_name", "ancestor_named_like_pattern", "two_excluded_siblings_adjacent", "two_excluded_siblings_separated", "root_excluded",
+PROBES = ["other_input_first", "ancestor_with_glob_characters", "stdout_mode", "unlistable_excluded_dir", "dir_and_file_share_a_name", "ancestor_named_like_pattern", "two_excluded_siblings_adjacent", "two_excluded_siblings_separated", "root_excluded",
           "dir_emptied_by_exclusion", "abs_pattern", "pattern_from_cli", "pattern_from_sfile",
           "pattern_from_user_config", "excluded_dir_with_content", "nonrecursive", "auto_exclude_off"]
 
@@ -119,10 +119,16 @@ def strategy(cfg):
                 "stdout": draw(st.integers(0, 4)) == 0,
                 # an excluded directory that cannot be listed must not matter: it is never looked into
                 "unlistable_excluded_dir": draw(st.integers(0, 3)) == 0,
+                # another directory documented first in the same invocation (the patterns must still hold for this one)
+                "decoy_first": draw(st.integers(0, 3)) == 0,
             })
         return {"files": files, "proj": site.proj, "out": out, "patterns": pats, "recursive": recursive,
                 "auto_exclude": auto, "variants": variants}
     return world()
+
+
+DECOY = "decoys/zzdecoy/zzdecoy_mod.cmake"
+DECOY_PAGES = {"zzdecoy_mod.rst", "index.rst"}
 
 
 def tree_of(spec):
@@ -157,7 +163,11 @@ def variant_setup(spec, var):
         overlay["home/.config/cminx/config.yaml"] = u_text
     for p in by[0]:
         argv += ["-e", p]
-    argv += (["-o", var["output"]] if not var.get("stdout") else []) + [var["input"]]
+    argv += (["-o", var["output"]] if not var.get("stdout") else [])
+    if var.get("decoy_first") and not var.get("stdout"):
+        overlay[DECOY] = "set(zqdecoy 1)\n"
+        argv.append("{BASE}/" + posixpath.dirname(DECOY))
+    argv.append(var["input"])
     return overlay, argv
 
 
@@ -215,7 +225,11 @@ def evaluate(spec, ctx):
                                             var["listing_explicit"], spec["recursive"], spec["auto_exclude"]]),
                           matched_any)
             got = created_under(res, out)
-            where = f"variant {vi}"
+            decoy = bool(var.get("decoy_first") and not var.get("stdout"))
+            if decoy:
+                ctx.probes["other_input_first"] += 1
+                got = got - {"zzdecoy_mod.rst"}
+            where = f"variant {vi}" + (" (another directory documented first)" if decoy else "")
             if res.fired:
                 viols.append(viol("excluded-entry-processed", f"{where}: the excluded directory "
                                   f"{walk.pattern_excluded_dirs[0]} was listed (it is unreadable here: {res.fired})",
@@ -227,7 +241,9 @@ def evaluate(spec, ctx):
                 ctx.probes["stdout_mode"] += 1
                 if res.created or res.changed:
                     viols.append(viol("run-failed", f"{where}: stdout mode created {res.created[:4]}"))
-            else:
+            elif not (decoy and (ig.root_excluded() or anc_hits)):
+                # (where the whole input is excluded - by a pattern, or through known finding F5 - the top index.rst of
+                # the other directory stays behind: not comparable with a run without it)
                 seen_sets.append(got)
             # --- per-event invariant: nothing below an excluded directory is listed, no excluded file is opened
             pre = proj + "/"
@@ -281,7 +297,10 @@ def evaluate(spec, ctx):
                         if refs.stem(f) + ".rst" not in got:
                             viols.append(viol("processed-entry-missing", f"{where}: page for {f} missing",
                                               cause="pattern-matches-ancestor" if anc_hits else "other"))
-            if ig.root_excluded():
+            if ig.root_excluded() and decoy:
+                if got - DECOY_PAGES:
+                    viols.append(viol("excluded-input-produced-output", f"{where}: created {sorted(got - DECOY_PAGES)[:5]}"))
+            elif ig.root_excluded():
                 if res.created or res.changed or ".. module::" in res.stdout:
                     viols.append(viol("excluded-input-produced-output",
                                       f"{where}: created {res.created[:5]} stdout {res.stdout[:80]!r}"))
